@@ -35,6 +35,26 @@ func (p *Program) TermOf(v ssa.Value) *Term {
 	return p.termOf(v, map[ssa.Value]bool{}, 0)
 }
 
+// TermOnPath describes v with every phi of the path's function resolved to
+// the edge the path took (path-sensitive provenance for E-ACC / E-SIB).
+func (p *Program) TermOnPath(pa *Path, v ssa.Value) *Term {
+	old := p.phiHook
+	p.phiHook = func(ph *ssa.Phi) ssa.Value {
+		pb := pa.pred[ph.Block()]
+		if pb == nil {
+			return nil
+		}
+		for k, q := range ph.Block().Preds {
+			if q == pb {
+				return ph.Edges[k]
+			}
+		}
+		return nil
+	}
+	defer func() { p.phiHook = old }()
+	return p.termOf(v, map[ssa.Value]bool{}, 0)
+}
+
 func mk(op, name string, v ssa.Value, args ...*Term) *Term {
 	return &Term{Op: op, Name: name, V: v, Args: args}
 }
@@ -58,14 +78,16 @@ func (p *Program) termOf(v ssa.Value, busy map[ssa.Value]bool, depth int) *Term 
 	if busy[v] {
 		return mk("mu", "", v)
 	}
-	if t, ok := p.termCache[termKey{v}]; ok {
-		return t
+	if p.phiHook == nil {
+		if t, ok := p.termCache[termKey{v}]; ok {
+			return t
+		}
 	}
 	busy[v] = true
 	t := p.termOf1(v, busy, depth)
 	delete(busy, v)
-	// cache only cycle-free results
-	if !t.Has(func(x *Term) bool { return x.Op == "mu" }) {
+	// cache only cycle-free, path-independent results
+	if p.phiHook == nil && !t.Has(func(x *Term) bool { return x.Op == "mu" }) {
 		p.termCache[termKey{v}] = t
 	}
 	return t
@@ -124,6 +146,11 @@ func (p *Program) termOf1(v ssa.Value, busy map[ssa.Value]bool, depth int) *Term
 		t := mk("assert", typeStr(v.AssertedType), v, rec(v.X))
 		return t
 	case *ssa.Phi:
+		if p.phiHook != nil {
+			if ch := p.phiHook(v); ch != nil {
+				return rec(ch)
+			}
+		}
 		var alts []*Term
 		for _, e := range v.Edges {
 			alts = append(alts, rec(e))
@@ -152,6 +179,15 @@ func (p *Program) termOf1(v ssa.Value, busy map[ssa.Value]bool, depth int) *Term
 	case *ssa.Lookup:
 		return mk("lookup", "", v, rec(v.X), rec(v.Index))
 	case *ssa.Slice:
+		if v.Low == nil && v.High == nil {
+			if elems, ok := variadicElems(v); ok && len(elems) > 0 {
+				var ts []*Term
+				for _, e := range elems {
+					ts = append(ts, rec(e))
+				}
+				return mk("list", "", v, ts...)
+			}
+		}
 		return mk("slice", "", v, p.addrBaseTerm(v.X, busy, depth), rec(v.Low), rec(v.High))
 	case *ssa.Extract:
 		t := mk("extract", "", v, rec(v.Tuple))
@@ -465,11 +501,33 @@ func (t *Term) String() string {
 	if t.str != "" {
 		return t.str
 	}
+	t.str = t.Render(nil)
+	return t.str
+}
+
+// Render prints the term; hook may override the rendering of any subterm
+// (used by sibling-agreement rules to erase declared differences).
+func (t *Term) Render(hook func(t *Term, rec func(*Term) string) (string, bool)) string {
+	if t == nil {
+		return "<nil>"
+	}
+	var rec func(x *Term) string
+	rec = func(x *Term) string {
+		if hook == nil {
+			return x.String()
+		}
+		return x.Render(hook)
+	}
+	if hook != nil {
+		if s, ok := hook(t, rec); ok {
+			return s
+		}
+	}
 	var s string
 	argstr := func() string {
 		var xs []string
 		for _, a := range t.Args {
-			xs = append(xs, a.String())
+			xs = append(xs, rec(a))
 		}
 		return strings.Join(xs, ",")
 	}
@@ -482,7 +540,7 @@ func (t *Term) String() string {
 	case "const":
 		s = "c:" + t.Name
 	case "field":
-		s = t.Args[0].String() + "." + t.Name
+		s = rec(t.Args[0]) + "." + t.Name
 	case "call":
 		s = "call:" + t.Name + "(" + argstr() + ")"
 	case "invoke":
@@ -492,19 +550,19 @@ func (t *Term) String() string {
 	case "builtin":
 		s = t.Name + "(" + argstr() + ")"
 	case "extract":
-		s = fmt.Sprintf("%s#%d", t.Args[0].String(), t.Idx)
+		s = fmt.Sprintf("%s#%d", rec(t.Args[0]), t.Idx)
 	case "binop":
-		s = "(" + t.Args[0].String() + t.Name + t.Args[1].String() + ")"
+		s = "(" + rec(t.Args[0]) + t.Name + rec(t.Args[1]) + ")"
 	case "unop":
-		s = t.Name + t.Args[0].String()
+		s = t.Name + rec(t.Args[0])
 	case "phi", "cell":
 		s = t.Op + "{" + strings.ReplaceAll(argstr(), ",", "|") + "}"
 	case "index":
-		s = t.Args[0].String() + "[" + t.Args[1].String() + "]"
+		s = rec(t.Args[0]) + "[" + rec(t.Args[1]) + "]"
 	case "lookup":
-		s = t.Args[0].String() + "[[" + t.Args[1].String() + "]]"
+		s = rec(t.Args[0]) + "[[" + rec(t.Args[1]) + "]]"
 	case "slice":
-		s = t.Args[0].String() + "[" + t.Args[1].String() + ":" + t.Args[2].String() + "]"
+		s = rec(t.Args[0]) + "[" + rec(t.Args[1]) + ":" + rec(t.Args[2]) + "]"
 	case "closure":
 		s = "closure:" + t.Name
 	case "global":
@@ -512,15 +570,18 @@ func (t *Term) String() string {
 	case "alloc":
 		s = "new:" + t.Name
 	case "assert":
-		s = "assert(" + t.Args[0].String() + ")"
+		s = "assert(" + rec(t.Args[0]) + ")"
 	case "addr":
-		s = "&" + t.Args[0].String()
+		s = "&" + rec(t.Args[0])
 	case "mu":
 		s = "µ"
+	case "list":
+		s = "[" + argstr() + "]"
+	case "LT", "EQ":
+		s = t.Op + "(" + argstr() + ")"
 	default:
 		s = t.Op + ":" + t.Name + "(" + argstr() + ")"
 	}
-	t.str = s
 	return s
 }
 
